@@ -1,7 +1,7 @@
 //! C10: conforming responses for an entrypoint's query, generated from the QUERY TEXT (what a server
 //! sees) and the schema, and the runtime's own normalize / read run on them (js/ops_runtime.mjs).
 //!
-//! `c10 \t <entrypoint.ts path> \t <seed> \t <shape>`; shapes: `full` (no nulls, lists of 2, concrete
+//! `c10 \t <case id> \t <entrypoint.ts path> \t <seed> \t <shape>`; shapes: `full` (no nulls, lists of 2, concrete
 //! types of abstract fields cycled), `random` (nulls 20 %, lists 0–3), `sparse` (nulls 50 %, lists 0–1,
 //! nullable variables omitted half of the time).
 //!
@@ -545,7 +545,7 @@ fn hx(s: &str) -> String {
 }
 
 pub fn c10_answer(c: &mut Current, values: &J, rt: &mut Node, f: &[&str]) -> String {
-    let (Some(entry), Some(seed), Some(shape)) = (f.get(1), f.get(2).and_then(|s| s.parse::<u64>().ok()), f.get(3)) else {
+    let (Some(entry), Some(seed), Some(shape)) = (f.get(2), f.get(3).and_then(|s| s.parse::<u64>().ok()), f.get(4)) else {
         return "bad-request".to_string();
     };
     let Some(project) = c.project.as_ref() else { return "noschema".to_string() };
